@@ -176,6 +176,9 @@ def check(model: Model, run: Run) -> None:
     # the reader primitives advance by exactly what was validated and keep no state that a sibling forgets to reset
     from ..readerrules import lemma_no_consume_on_failure
     lemma_no_consume_on_failure(model, run, "C01")
+    # a nested writer emits what was written into it, in that order, under the tag it was opened with
+    from .c07 import constructed_flush
+    constructed_flush(model, run)
     # ---- purity of the writers (re-encoding is byte-identical) ------------------------------------------
     purity(model, run, ex)
     post_decode_mutation(model, run)
